@@ -141,6 +141,35 @@ Proof.
   apply lex_digits; assumption.
 Qed.
 
+(* every integer, negative ones included (i64::MIN too): the tokens of  emit_int z  in any closed context *)
+Definition int_tokens (z : Z) : list tok :=
+  match z with
+  | Z0 => [TNumber [48]]
+  | Zpos p => [TNumber (digits_of (Npos p))]
+  | Zneg p => [TPunct 45; TNumber (digits_of (Npos p))]
+  end.
+
+Lemma run_minus_digit d c w : is_digit c = true -> run d L0 (45 :: c :: w) = TPunct 45 :: run d L0 (c :: w).
+Proof.
+  intro Hc. cbn [run]. change (step d L0 45) with (LMinus, @nil tok). cbn [app]. cbn [run step].
+  apply is_digit_spec in Hc. replace (c =? 45) with false by (symmetry; apply N.eqb_neq; lia).
+  unfold flush_then. change (step d L0 c) with (step0 c). destruct (step0 c) as [st' out]. reflexivity.
+Qed.
+
+Theorem int_z_in_context d z pre suf :
+  closed_prefix d pre = true -> num_boundary suf = true ->
+  sql_lex d (pre ++ emit_int z ++ suf) = sql_lex d pre ++ int_tokens z ++ sql_lex d suf.
+Proof.
+  intros Hp Hs. destruct z as [|p|p]; cbn [emit_int int_tokens].
+  - exact (int_in_context d 0 pre suf Hp Hs).
+  - exact (int_in_context d (Npos p) pre suf Hp Hs).
+  - rewrite (sql_lex_closed_prefix d pre Hp). unfold sql_lex at 1. rewrite run_app.
+    unfold closed_prefix in Hp. destruct (state_after d L0 pre); try discriminate. f_equal.
+    destruct (digits_of_cons (Npos p)) as (c & w & E & Hc & Hw). rewrite E. cbn [app].
+    rewrite (run_minus_digit d c (w ++ suf) Hc). cbn [app]. f_equal.
+    exact (lex_digits d c w suf Hc Hw Hs).
+Qed.
+
 Definition int_of_tokens (l : list tok) : option Z :=
   match l with
   | [TNumber s] => option_map Z.of_N (sql_int_value s)
@@ -326,6 +355,57 @@ Qed.
 Theorem based_rows_no_overflow rows : forallb row_fits rows = true ->
   forall row s, In row rows -> based_number row s = based_number_raw row s.
 Proof. intros F row s Hin. apply based_no_overflow. rewrite forallb_forall in F. exact (F row Hin). Qed.
+
+(* what take_digits consumed, and where it stopped *)
+Lemma take_digits_split base : forall n s ds r, take_digits base n s = (ds, r) ->
+  s = ds ++ r /\ forallb (digit_ok base) ds = true /\ (length ds <= n)%nat /\
+  ((length ds < n)%nat -> match r with c :: _ => digit_ok base c = false | [] => True end).
+Proof.
+  induction n as [|n IH]; intros s ds r H.
+  - cbn [take_digits] in H. injection H as <- <-. cbn [length app]. repeat split; try reflexivity; lia.
+  - destruct s as [|c s']; cbn [take_digits] in H.
+    + injection H as <- <-. cbn [length]. repeat split; try reflexivity; lia.
+    + destruct (digit_val base c) eqn:E.
+      * destruct (take_digits base n s') as [a b] eqn:T. injection H as <- <-.
+        destruct (IH _ _ _ T) as (E1 & F & L & St). cbn [app length forallb]. rewrite <- E1.
+        unfold digit_ok at 1. rewrite E. repeat split; [exact F | lia | intro; apply St; lia].
+      * injection H as <- <-. cbn [app length forallb]. repeat split; [lia|]. intros _. unfold digit_ok. rewrite E. reflexivity.
+Qed.
+
+(* THE VALUE OF A BASED LITERAL (0x / 0o / 0b): the literal the lexer produces has exactly the value of the digits it
+   consumed, that value fits i64 (never the unwrap_or(Integer(0)) fallback), and the literal can only stop in front of
+   another digit of the base when it has consumed the maximal number of digits -- "the value of the spelling, or the
+   spelling is split in two tokens (and rejected by the parser)".  A change that lets an over-long literal through as
+   one token with another value (seeded change C08/5: 0x8000000000000000 = 0) contradicts this theorem. *)
+Theorem based_value_or_split row s v r : row_fits row = true -> based_number row s = Some (v, r) ->
+  let '(prefix, base, maxd) := row in
+  exists us ds, s = prefix ++ us ++ ds ++ r /\ (us = [] \/ us = [95]) /\ ds <> [] /\
+                forallb (digit_ok base) ds = true /\ v = base_value base ds /\ v <= I64_MAX /\
+                (match r with c :: _ => digit_ok base c = true | [] => False end -> length ds = maxd).
+Proof.
+  intros Hf H. rewrite (based_no_overflow row s Hf) in H.
+  destruct row as [[prefix base] maxd]. unfold based_number_raw in H. unfold row_fits in Hf. apply N.leb_le in Hf.
+  destruct (strip_prefix prefix s) as [r0|] eqn:P; [|discriminate]. apply strip_prefix_spec in P.
+  set (r1 := match r0 with u :: r' => if u =? 95 then r' else r0 | [] => r0 end) in *.
+  assert (exists us, r0 = us ++ r1 /\ (us = [] \/ us = [95])) as (us & Eus & Hus).
+  { subst r1. destruct r0 as [|u r']; [exists []; auto|]. destruct (u =? 95) eqn:U.
+    - apply N.eqb_eq in U. subst u. exists [95]. auto.
+    - exists []. auto. }
+  destruct (take_digits base maxd r1) as [ds r'] eqn:T.
+  destruct (take_digits_split base maxd r1 ds r' T) as (E1 & F & L & St).
+  destruct ds as [|d0 ds']; [discriminate|]. injection H as <- <-.
+  exists us, (d0 :: ds'). split; [rewrite P, Eus, E1; reflexivity|]. split; [exact Hus|]. split; [discriminate|].
+  split; [exact F|]. split; [reflexivity|]. split.
+  - pose proof (base_value_acc_bound base (d0 :: ds') 0 F) as B. unfold base_value.
+    assert (base ^ N.of_nat (length (d0 :: ds')) <= base ^ N.of_nat maxd) as M.
+    { destruct (N.eq_dec base 0) as [->|NZ].
+      - cbn [forallb] in F. apply andb_true_iff in F as [F0 _]. apply digit_ok_lt in F0. lia.
+      - apply N.pow_le_mono_r; [exact NZ | lia]. }
+    lia.
+  - intro Hd. destruct (Nat.eq_dec (length (d0 :: ds')) maxd) as [E|NE]; [exact E|].
+    assert (length (d0 :: ds') < maxd)%nat as Lt by lia. specialize (St Lt).
+    destruct r' as [|c r'']; [contradiction|]. rewrite St in Hd. discriminate.
+Qed.
 
 (* ------------------------------------------------------------------ a PRQL spelling for every string value *)
 
